@@ -219,4 +219,112 @@ example : (fresh 100).state = 0 ∧ (fresh 100).len = (fresh 100).buf.length ∧
 example : holds (fun b => b = [1,2,3,4]) ({ f := some [1,2,3,4], old := none } : Disk).f := by
   exact ⟨_, rfl, rfl⟩
 
+/-! ## the published state file of a multiple-walker bias (temporary file + rename, no backup) -/
+
+theorem prun_append (d : PDisk) (a b : List POp) : prun d (a ++ b) = prun (prun d a) b := by
+  simp [prun, List.foldl_append]
+
+/-- writes to the temporary file never touch the published file -/
+theorem pub_writes (d : PDisk) (chunks : List Bytes) : (prun d (chunks.map .writeTmp)).pub = d.pub := by
+  induction chunks generalizing d with
+  | nil => rfl
+  | cons c cs ih =>
+    simp only [List.map_cons, prun, List.foldl_cons]
+    have := ih (pstep d (.writeTmp c))
+    simp only [prun] at this
+    rw [this]; rfl
+
+theorem tmp_writes (d : PDisk) (chunks : List Bytes) :
+    (prun d (chunks.map .writeTmp)).tmp = some ((d.tmp.getD []) ++ chunks.flatten) ∨ (chunks = [] ∧ (prun d (chunks.map .writeTmp)).tmp = d.tmp) := by
+  induction chunks generalizing d with
+  | nil => right; exact ⟨rfl, rfl⟩
+  | cons c cs ih =>
+    left
+    simp only [List.map_cons, prun, List.foldl_cons]
+    have h := ih (pstep d (.writeTmp c))
+    simp only [prun] at h
+    rcases h with h | ⟨hn, h⟩
+    · rw [h]; simp [pstep, List.append_assoc]
+    · rw [h, hn]; simp [pstep]
+
+/-- every prefix of the operations before the final rename leaves the published file as it was -/
+theorem pub_untouched_before_publish (d : PDisk) (chunks : List Bytes) (k : Nat)
+    (hk : k ≤ chunks.length + 3) :
+    (prun d ((publishOps chunks).take k)).pub = d.pub := by
+  have e : publishOps chunks = ([POp.removeTmp, .openTmp] ++ chunks.map .writeTmp ++ [.closeTmp]) ++ [.publish] := by
+    simp [publishOps]
+  have hl : ([POp.removeTmp, POp.openTmp] ++ chunks.map POp.writeTmp ++ [POp.closeTmp]).length = chunks.length + 3 := by simp
+  rw [e, List.take_append_of_le_length (by rw [hl]; exact hk)]
+  -- no operation of the prefix is a publish: induction on the list of operations actually run
+  have key : ∀ (ops : List POp) (d : PDisk), (∀ o ∈ ops, o ≠ POp.publish) → (prun d ops).pub = d.pub := by
+    intro ops
+    induction ops with
+    | nil => intro d _; rfl
+    | cons o os ih =>
+      intro d h
+      simp only [prun, List.foldl_cons]
+      have h1 := ih (pstep d o) (fun o' ho' => h o' (List.mem_cons_of_mem _ ho'))
+      simp only [prun] at h1
+      rw [h1]
+      have ho := h o (List.mem_cons_self ..)
+      cases o <;> simp_all [pstep]
+  apply key
+  intro o ho
+  have := List.mem_of_mem_take ho
+  simp at this
+  rcases this with h | h | ⟨c, _, h⟩ | h <;> simp [h] <;> rw [← h] <;> simp
+
+/-- **crash invariant of the published file**: if it held a complete state when the replacement began and the new state is
+    complete, then wherever the process dies — between any two operations or inside any write — the published file holds
+    a complete state (the previous one, or after the rename the new one) -/
+theorem publish_crash_invariant (complete : Bytes → Prop) (d : PDisk) (chunks : List Bytes)
+    (hf : holds complete d.pub) (hnew : complete chunks.flatten) (k j : Nat) :
+    holds complete (pcrashAt d (publishOps chunks) k j).pub := by
+  have hlen : (publishOps chunks).length = chunks.length + 4 := by simp [publishOps]
+  by_cases hk : k ≤ chunks.length + 3
+  · -- the rename has not happened; a partial write goes to the temporary file
+    have hp := pub_untouched_before_publish d chunks k hk
+    unfold pcrashAt
+    simp only
+    split
+    · simp only [pstep]; rw [hp]; exact hf
+    · rw [hp]; exact hf
+  · -- everything ran
+    have hk' : chunks.length + 4 ≤ k := by omega
+    have htake : (publishOps chunks).take k = publishOps chunks := List.take_of_length_le (by rw [hlen]; exact hk')
+    have hnone : (publishOps chunks)[k]? = none := by
+      rw [List.getElem?_eq_none_iff]; rw [hlen]; exact hk'
+    unfold pcrashAt
+    simp only [htake, hnone]
+    have e : publishOps chunks = [POp.removeTmp, .openTmp] ++ (chunks.map .writeTmp ++ [.closeTmp, .publish]) := by
+      simp [publishOps]
+    rw [e, prun_append, prun_append]
+    have h1 : prun d [POp.removeTmp, .openTmp] = { pub := d.pub, tmp := some [] } := by simp [prun, pstep]
+    rw [h1]
+    have ht := tmp_writes { pub := d.pub, tmp := some [] } chunks
+    have hpb := pub_writes { pub := d.pub, tmp := some [] } chunks
+    rcases ht with ht | ⟨hn, ht⟩
+    · refine ⟨chunks.flatten, ?_, hnew⟩
+      simp only [prun, List.foldl_cons, List.foldl_nil, pstep]
+      simp only [prun] at ht
+      rw [ht]; simp
+    · subst hn
+      refine ⟨[], ?_, by simpa using hnew⟩
+      simp [prun, pstep]
+
+/-- The order of close and rename matters: with the rename moved before the bytes have left the stream's buffer, a death
+    right after the rename leaves an empty published file although both the previous and the new state were complete. -/
+theorem publish_early_loses_state :
+    let complete : Bytes → Prop := fun b => b = [1, 2, 3, 4]
+    let d0 : PDisk := { pub := some [1, 2, 3, 4], tmp := none }
+    ¬ holds complete (pcrashAt d0 (publishEarlyOps [[1, 2, 3, 4]]) 3 0).pub := by
+  intro complete d0 h
+  obtain ⟨b, hb, hc⟩ := h
+  simp [pcrashAt, publishEarlyOps, prun, pstep, d0] at hb
+  subst hb
+  simp [complete] at hc
+
+/-- premises of `publish_crash_invariant` are satisfiable, and a mid-write death indeed leaves the old state published -/
+example : (pcrashAt { pub := some [9], tmp := none } (publishOps [[1, 2], [3]]) 2 1).pub = some [9] := by decide
+
 end Cv.C11
